@@ -95,13 +95,14 @@ Mk(name, kind, j) ==
      explicit |-> kind = "query" /\ (Mod(j, 4) = 3 \/ Mod(j, 8) = 5),
      \* how the signature is written when `resp=` is given: an aliased result type, or a plain Result of *another* type
      \* (the declared response type is the attribute's; `ret` is what the handler actually returns)
+     ctxkind |-> "",      \* "" : the context parameter is written with the kind's own context type
      sig |-> IF kind = "query" /\ Mod(j, 8) = 5 THEN "plain" ELSE "alias",
      ret |-> IF kind # "query" THEN "" ELSE IF Mod(j, 8) = 5 THEN "QResp" ELSE IF Mod(j, 2) = 0 THEN "QResp" ELSE "QRespB"]
 
-InstMethod(j) == [name |-> NameInstantiate, kind |-> "instantiate", args |-> Sigs[Mod(j, 3) + 1], outcome |-> "ok", resp |-> "", explicit |-> FALSE,
+InstMethod(j) == [name |-> NameInstantiate, kind |-> "instantiate", args |-> Sigs[Mod(j, 3) + 1], outcome |-> "ok", resp |-> "", explicit |-> FALSE, ctxkind |-> "",
                   sig |-> "alias", ret |-> ""]
 MigMethod(j)  == [name |-> NameMigrate, kind |-> "migrate", args |-> Sigs[Mod(j + 1, 3) + 1],
-                  outcome |-> IF Mod(j, 2) = 0 THEN "ok" ELSE "err", resp |-> "", explicit |-> FALSE, sig |-> "alias", ret |-> ""]
+                  outcome |-> IF Mod(j, 2) = 0 THEN "ok" ELSE "err", resp |-> "", explicit |-> FALSE, ctxkind |-> "", sig |-> "alias", ret |-> ""]
 
 (* name j of a group goes to slot (j-1) mod 9: part = slot div 3, kind = slot mod 3 *)
 SlotPart(j) == (Mod(j - 1, 9) \div 3) + 1
@@ -119,7 +120,7 @@ CorpusProg(gi) ==
 (* programs in which handlers of different kinds deliberately share names and shapes (C04) *)
 ShareSig == << [n |-> "x", t |-> "u32"] >>
 Sh(name, kind, o) == [name |-> name, kind |-> kind, args |-> ShareSig, outcome |-> o,
-                      resp |-> IF kind = "query" THEN "QResp" ELSE "", explicit |-> FALSE, sig |-> "alias",
+                      resp |-> IF kind = "query" THEN "QResp" ELSE "", explicit |-> FALSE, ctxkind |-> "", sig |-> "alias",
                       ret |-> IF kind = "query" THEN "QResp" ELSE ""]
 Shared1 ==
     [id |-> "S1", family |-> "shared", overrides |-> {},
@@ -217,6 +218,16 @@ Empty1 ==
      parts |-> << [id |-> "i1", methods |-> <<>>],
                   [id |-> "own", methods |-> << Sh(NameInstantiate, "instantiate", "ok") >>] >>]
 
+(* handlers whose context parameter is written with the context type of a sibling kind (legal whenever both are built from the
+   same tuple: sudo / migrate, exec / instantiate): the kind of a handler is what its sv::msg says, not what its ctx type suggests *)
+Cx(name, kind, ck) == [Sh(name, kind, "ok") EXCEPT !.ctxkind = ck]
+CtxKinds1 ==
+    [id |-> "C1", family |-> "shared", overrides |-> {},
+     parts |-> << [id |-> "i1", methods |-> << Cx(NameFoo, "sudo", "migrate"), Sh(NameBar, "exec", "ok") >>],
+                  [id |-> "own", methods |-> << Cx(NameInstantiate, "instantiate", "exec"), Cx(<<"x">>, "exec", "instantiate"),
+                                                Sh(<<"y">>, "query", "ok"), Cx(<<"z">>, "sudo", "migrate"),
+                                                Cx(NameMigrate, "migrate", "sudo") >>] >>]
+
 (* programs that override entry points (C06, C04): one handler of every kind, some kinds served by the user's own functions *)
 OvProg(id, ov) ==
     [id |-> id, family |-> "override", overrides |-> ov,
@@ -263,7 +274,7 @@ PermTwin(p) ==
 RawSeq ==      \* all programs of this instance, as a sequence
        [gi \in 1..Len(Groups) |-> CorpusProg(gi)]
     \o [i \in 1..Len(SmallFs) |-> SmallProgOf(SmallFs[i], "m" \o ToString(i))]
-    \o <<Shared1, Shared2, Shared3, Nested1, Unicode1, Empty1, Wide1, Defaults1, Keywords1, Generic1, Generic2, PermTwin(Shared1), PermTwin(CorpusProg(1))>> \o OverrideProgs \o CollideProgs
+    \o <<Shared1, Shared2, Shared3, Nested1, Unicode1, Empty1, CtxKinds1, Wide1, Defaults1, Keywords1, Generic1, Generic2, PermTwin(Shared1), PermTwin(CorpusProg(1))>> \o OverrideProgs \o CollideProgs
 
 (* the table of elaborated programs: the static semantics applied once per program *)
 ElabSeq == TLCEval([i \in 1..Len(RawSeq) |-> Elab(RawSeq[i])])
